@@ -201,6 +201,19 @@ fn check_graph(g: &super::c01::Graph, case: &mut Case) -> Result<(), Fail> {
     Ok(())
 }
 
+/// 1..6 entries, mostly well-formed, whose names often end in a pointer to 1..12 bytes before the pointer itself:
+/// the bytes walked are the fixed fields of the previous entry and then the pointer's own octets
+fn near_self_strategy(_t: Tier) -> BoxedStrategy<super::c01::Graph> {
+    use super::c01::{End, Frag, Graph};
+    let lab = prop_oneof![3 => vec(any::<u8>(), 1..=2).prop_map(Bytes), 1 => vec(prop_oneof![Just(0u8), Just(1u8), any::<u8>()], 3..=18).prop_map(Bytes)];
+    let frag = (
+        vec(lab, 0..=2),
+        prop_oneof![4 => Just(End::Zero), 2 => any::<u16>().prop_map(End::ToFrag), 1 => Just(End::Prev), 8 => prop_oneof![Just(0u8), Just(0), any::<u8>()].prop_map(End::Back), 1 => (0u16..40).prop_map(End::Abs)],
+    )
+        .prop_map(|(labels, end)| Frag { labels, end });
+    (vec(frag, 1..=6), any::<bool>()).prop_map(|(frags, as_questions)| Graph { frags, repeat_last: 0, as_questions }).boxed()
+}
+
 /// reference encodings with stray / twin OPT records and malformed NSEC windows (C11's inputs)
 fn check_strays(input: &super::c11::In, case: &mut Case) -> Result<(), Fail> {
     let m = super::c11::render(input);
@@ -218,7 +231,8 @@ pub fn def() -> CheckDef {
             Box::new(ReplayOnly { name: "fuzz-bytes", check: check_raw }),
             Box::new(PropSection { name: "rdlength", rule: "RDLENGTH vs content mismatches", strategy, cases: (300_000, 3_000_000), check }),
             Box::new(EnumSection { name: "many-entries", rule: "sections holding 0..4000 entries", enumerate: enum_many, check: check_many, exhaustive: true }),
-            Box::new(PropSection { name: "graphs", rule: "pointer graphs: names pointing into earlier entries' fixed fields", strategy: super::c01::graph_strategy, cases: (150_000, 1_000_000), check: check_graph }),
+            Box::new(PropSection { name: "graphs", rule: "pointer graphs: names pointing into earlier entries' fixed fields", strategy: super::c01::graph_strategy, cases: (50_000, 500_000), check: check_graph }),
+            Box::new(PropSection { name: "near-self-pointers", rule: "few entries whose names point a few bytes before themselves", strategy: near_self_strategy, cases: (300_000, 2_000_000), check: check_graph }),
             Box::new(PropSection { name: "strays", rule: "stray / twin OPT records, any opcode and rcode", strategy: super::c11::strategy_pub, cases: (100_000, 1_000_000), check: check_strays }),
             Box::new(PropSection { name: "mutated", rule: "mutated reference encodings", strategy: super::c01::mutated_strategy, cases: (300_000, 3_000_000), check: check_mutated }),
         ],
